@@ -24,7 +24,11 @@ fn generate(rng: &mut Rng, index: u64) -> ConnScenario {
     };
     let signing_secret = secret_cfg.clone().unwrap_or_else(|| b"unconfigured".to_vec());
     let intent = if rng.chance(1, 6) { 2 } else { 3 };
-    let client_addr = gen_addr(rng);
+    let client_addr = match rng.below(10) {
+        // an IPv6 client whose address embeds an IPv4 one (IPv4-compatible form)
+        0 => format!("[::{}.{}.{}.{}]:{}", rng.range(1, 223), rng.below(256), rng.below(256), rng.range(1, 254), rng.range(1024, 65535)),
+        _ => gen_addr(rng),
+    };
     let expiry = *rng.pick(&[0u64, 1, 60, 21_600, 21_600, 1 << 63, u64::MAX]);
     let wall = Wall { base_s: 1_800_000_000, jumps: vec![] };
     // age relative to expiry
@@ -39,8 +43,26 @@ fn generate(rng: &mut Rng, index: u64) -> ConnScenario {
         _ => now.saturating_sub(rng.below(expiry.clamp(1, 100_000))),
     };
     let id = Identity { name: format!("InCookie{}", rng.below(50)), uuid: gen_uuid(rng), props: gen_props(rng) };
-    let cookie_addr = match rng.below(6) {
+    let cookie_addr = match rng.below(9) {
         0 => gen_addr(rng),
+        // a different address that merely embeds / is embedded in the client's (IPv4-compatible IPv6)
+        6 | 7 => {
+            let a: std::net::SocketAddr = client_addr.parse().unwrap();
+            match a.ip() {
+                std::net::IpAddr::V4(v4) => {
+                    let o = v4.octets();
+                    format!("[::{}.{}.{}.{}]:{}", o[0], o[1], o[2], o[3], a.port())
+                }
+                std::net::IpAddr::V6(v6) => {
+                    let o = v6.octets();
+                    if o[..12].iter().all(|b| *b == 0) {
+                        format!("{}.{}.{}.{}:{}", o[12], o[13], o[14], o[15], a.port())
+                    } else {
+                        gen_addr(rng)
+                    }
+                }
+            }
+        }
         1 => {
             // same ip, other port
             let a: std::net::SocketAddr = client_addr.parse().unwrap();
@@ -92,6 +114,11 @@ fn generate(rng: &mut Rng, index: u64) -> ConnScenario {
     };
     let mut client = ClientSpec::base(rng, intent);
     client.name = "Claimed".into();
+    match rng.below(6) {
+        0 => client.uuid = format!("{:032x}", id.uuid), // same UUID as the cookie, other name
+        1 => client.name = id.name.clone(),             // same name as the cookie, other UUID
+        _ => {}
+    }
     client.auth_cookie = presented;
     let services = Services {
         auth: Script::always(Some(0), AuthRes::Profile { name: VOUCHED_NAME.into(), uuid: format!("{:032x}", 0xabcdu128), props: vec![] }),
@@ -190,7 +217,7 @@ impl Check for C02 {
         "fault_enumeration"
     }
     fn rule_text(&self) -> String {
-        "the cookie-variant axis is enumerated by run index (the exact cookie; every truncation length 0..len; every single-bit flip of tag and body; absent; empty; valid tag under 4 other secrets; valid tag over non-JSON, empty, wrong-shape, field-missing, wrong-type bodies; body without tag) over freshly generated base cookies (IPv4/IPv6, 0-5 properties, target present/absent); the other axes are sampled per run: intent login/transfer, secret none/empty/3/32 bytes, presenting IP same / same-other-port / different, age at expiry-1 / expiry / expiry+1 / epoch / future for expiry in {0,1,60,21600,2^63,2^64-1}. Non-trivial = a cookie was presented on a Transfer connection with a secret configured; distinct = distinct (event-order trace, variant class) hash.".into()
+        "the cookie-variant axis is enumerated by run index (the exact cookie; every truncation length 0..len; every single-bit flip of tag and body; absent; empty; valid tag under 4 other secrets; valid tag over non-JSON, empty, wrong-shape, field-missing, wrong-type bodies; body without tag) over freshly generated base cookies (IPv4/IPv6, 0-5 properties, target present/absent); the other axes are sampled per run: intent login/transfer, secret none/empty/3/32 bytes, presenting IP same / same-other-port / different / an IPv6 address embedding the IPv4 one (and the reverse), claimed identity disjoint from the cookie's or sharing only the name or only the UUID, age at expiry-1 / expiry / expiry+1 / epoch / future for expiry in {0,1,60,21600,2^63,2^64-1}. Non-trivial = a cookie was presented on a Transfer connection with a secret configured; distinct = distinct (event-order trace, variant class) hash.".into()
     }
     fn assumptions(&self) -> Vec<String> {
         vec![
